@@ -166,12 +166,17 @@ pub fn panic_text(e: Box<dyn std::any::Any + Send>) -> String {
 	let at = LAST_PANIC_AT.with(|c| c.borrow().clone());
 	format!("{} @{}", msg.replace('\n', " "), at)
 }
+static IN_CASE: std::sync::atomic::AtomicBool = std::sync::atomic::AtomicBool::new(false);
 thread_local! { static LAST_PANIC_AT: std::cell::RefCell<String> = std::cell::RefCell::new(String::new()); }
 
 /// Runs the harness protocol. `gen(rng, index)` yields "kind k=v ..."; `run(case)` yields the observation.
 pub fn harness_main(gen: fn(&mut Rng, u64) -> String, run: fn(&str) -> String) {
 	let args: Vec<String> = std::env::args().collect();
 	panic::set_hook(Box::new(|info| {
+		// a panic outside a case (in the generator or the plumbing) is a bug of the harness itself: say so on stderr
+		if !IN_CASE.load(std::sync::atomic::Ordering::Relaxed) {
+			eprintln!("harness bug: panic outside a case: {}", info);
+		}
 		if let Some(l) = info.location() {
 			LAST_PANIC_AT.with(|c| *c.borrow_mut() = format!("{}:{}", l.file().rsplit("/src/").next().unwrap_or(l.file()), l.line()));
 		}
@@ -188,7 +193,9 @@ pub fn harness_main(gen: fn(&mut Rng, u64) -> String, run: fn(&str) -> String) {
 		// a wall-clock alarm at ten times the budget remains as a backstop for a case that blocks without using CPU
 		set_cpu_budget(budget);
 		let case_owned = case.to_string();
+		IN_CASE.store(true, std::sync::atomic::Ordering::Relaxed);
 		let r = panic::catch_unwind(move || run(&case_owned));
+		IN_CASE.store(false, std::sync::atomic::Ordering::Relaxed);
 		set_cpu_budget(0);
 		let obs = match r {
 			Ok(s) => s,
